@@ -227,7 +227,7 @@ theorem shuffle_correct_regs (cfg : Cfg) (f : FrameIn) (vals : Vals) (hr : RegOn
       simp only [hss, Bool.not_false, if_true]
       unfold judge setup
       simp only
-      have hrun : run (vals.map varInfoOf) f.saOffSp f.saOffSa (spId cfg.arch) (initFrom (vals.map varInfoOf) 0 vals) e.out = some M' :=
+      have hrun : run (vals.map varInfoOf) f cfg.arch (initFrom (vals.map varInfoOf) 0 vals) e.out = some M' :=
         hw'.runs
       rw [hrun]
       simp only [Option.map_some, Option.some.injEq]
@@ -262,7 +262,7 @@ def varOkB (p : Params) (c : Ctx) (M : State) (i : Nat) (v : Var) : Bool :=
 
 def wfB (p : Params) (e : Emit) (M : State) : Bool :=
   e.ctx.vars.length == p.n && e.ctx.wd.length == 4 && (List.range 4).all (fun g => (e.ctx.w g).phys.length == 32) &&
-  run p.vis p.f.saOffSp p.f.saOffSa (spId p.cfg.arch) p.M0 e.out == some M &&
+  run p.vis p.f p.cfg.arch p.M0 e.out == some M &&
   (List.range p.n).all (fun i => varOkB p e.ctx M i (e.ctx.var i)) &&
   (List.range 4).all (fun g => (List.range 32).all fun r =>
     match physAt e.ctx g r with
